@@ -7,7 +7,7 @@
 #
 import re
 
-from ural.patterns import URL_IN_TEXT_RE
+from ural.patterns import URL_IN_TEXT_RE, URL_WITH_PROTOCOL_RE
 
 IRRELEVANT_PUNCTUATION = set("!?#\"$%&'()*+,-.:;<=>@[\\]^_`{|}~…’‘`‛«»„‟“”-‐‒–—―−‑⁃,،、")
 
@@ -30,7 +30,10 @@ def urls_from_text(string):
         if s > 0 and string[s - 1] == "[":
             if "](" in url:
                 remainder, url = url.split("](", 1)
-                yield remainder.strip()
+                remainder = remainder.strip()
+
+                if URL_WITH_PROTOCOL_RE.match(remainder):
+                    yield remainder
 
         last_punct = None
 
@@ -44,5 +47,9 @@ def urls_from_text(string):
 
         if i != stop:
             url = url[: i + 1]
+
+        # NOTE: the markdown target or the trimmed url might not be a url anymore
+        if not URL_WITH_PROTOCOL_RE.match(url):
+            continue
 
         yield url
